@@ -15,6 +15,7 @@ pub mod c11;
 pub mod c12;
 pub mod rangegen;
 pub mod enumcase;
+pub mod firstuse;
 pub mod c13;
 pub mod c14;
 pub mod c15;
@@ -51,6 +52,15 @@ pub fn run(ctx: &Ctx) -> Option<Report> {
 
 /// Re-runs one recorded case; returns a report holding the violations it reproduces.
 pub fn replay(property: &str, case: &Json, ctx: &Ctx) -> Option<Report> {
+    if case.get("kind").and_then(|k| k.as_str()) == Some("first-use") {
+        let what = case.get("what").and_then(|w| w.as_str()).unwrap_or("");
+        if ctx.in_child {
+            return Some(firstuse::child_body(what));
+        }
+        let mut report = Report::new();
+        firstuse::run_children(ctx, what, 12, &mut report);
+        return Some(report);
+    }
     Some(match property {
         "C01" => c01::replay(case, c01::Which::C01),
         "C02" => c02::replay(case),
